@@ -22,7 +22,7 @@ SIGMA = [
     '*', '|', '#', '.', '[', ']', '=', '~=', '|=', '^=', '$=', '*=', '!=', '"', "'", '\\', '\\0', '\\110000', '\\ffffff', '\\d800',
     '\\\n', '\x00', ' ', '\n', '\r', '\f', '\t', ',', '>', '+', '~', ':', '::', '(', ')',
     ':not(', ':is(', ':has(', ':nth-child(', ':nth-of-type(', '2n+1', ' of ', ':lang(', ':dir(', 'ltr', ':-soup-contains(', ':contains(',
-    '@page', '&', '/*', '*/', '/**/', ':--x', ':root', ':hover', ' i', ' s', 'n', 'even',
+    '@page', '&', '/*', '*/', '/**/', ':--x', ':root', ':hover', ' i', ' s', 'n', 'even', '[a=b', '[a="b"',
 ]
 CORE = ['a', '*', '|', '#', '.', '[', ']', '=', '"', '\\', ' ', ',', '>', ':', '(', ')']
 CORE2 = ['a', '[', ']', '=', '"', "'", '\\', ' i', ' ſ', ':not(', ')', ',']
